@@ -741,6 +741,50 @@ mod native {
         (inside, boundary, outside)
     }
 
+    /// Points that coincide exactly with something the parameters name: the parameters themselves
+    /// and their simple combinations, the textbook mean / mode / median, the mean and mean ± sd the
+    /// library reports, whole numbers, and the lattice centre + k·scale/2. Only points inside the
+    /// support that the ordinary ladder does not already contain are returned.
+    fn coincidence_points(spec: &CSpec, m: &CModel, have: &[f64]) -> Vec<f64> {
+        let (a, b) = (spec.a, spec.b);
+        let mut v: Vec<f64> = vec![a, b, a + b, a - b, b - a, a * b, a / b, b / a, 1.0 / a, 1.0 / b, a - 1.0, b - 1.0, a / 2.0, a - 2.0, 0.5 * (a + b)];
+        if let Some(t) = m.tmean {
+            v.push(t);
+        }
+        if let (Some(t), Some(tv)) = (m.tmean, m.tvar) {
+            v.push(t + tv.sqrt());
+            v.push(t - tv.sqrt());
+        }
+        v.push(m.mean);
+        v.push(m.mean + m.var.sqrt());
+        v.push(m.mean - m.var.sqrt());
+        // modes
+        match spec.law {
+            CLaw::Gamma => v.push((a - 1.0) / b),
+            CLaw::Beta => v.push((a - 1.0) / (a + b - 2.0)),
+            CLaw::Chi2 => v.push(a - 2.0),
+            CLaw::Gumbel => v.push(a - b * (2f64.ln()).ln()), // median
+            _ => {}
+        }
+        v.push(quantile(&*m.cdf, 0.5, m.lo, m.hi, m.c, m.s));
+        for k in [0.0, 1.0, 2.0, 3.0, 5.0, 10.0, 100.0, 1000.0, 0.5, 0.25, 0.75] {
+            v.push(k);
+            v.push(-k);
+        }
+        for r in [m.c.floor(), m.c.ceil(), m.c.round()] {
+            for k in [-2.0, -1.0, 0.0, 1.0, 2.0] {
+                v.push(r + k);
+            }
+        }
+        for k in -6..=6 {
+            v.push(m.c + 0.5 * k as f64 * m.s);
+        }
+        v.retain(|x| x.is_finite() && m.inside(*x) && !have.iter().any(|h| h == x));
+        v.sort_by(|p, q| p.partial_cmp(q).unwrap());
+        v.dedup();
+        v
+    }
+
     fn run_cont(spec: &CSpec, rep: &mut Report) {
         let regime = spec.regime();
         let law = spec.name();
@@ -761,11 +805,17 @@ mod native {
         let mut formula_failures = 0u32;
         let base_regime = regime;
         let edge_regime = format!("{}:factor-edge", law);
-        for &x in &inside {
+        let coincide_regime = format!("{}:coincide", base_regime);
+        let coincide = coincidence_points(spec, &m, &inside);
+        for (pi, &x) in inside.iter().chain(coincide.iter()).enumerate() {
             let regime = match m.judged(x) {
                 None => {
                     rep.note_add("skipped.points_with_unrepresentable_textbook_factor", 1.0);
                     continue;
+                }
+                Some(false) if pi >= inside.len() => {
+                    rep.seen(&format!("coincide:{}", law), 1);
+                    &coincide_regime
                 }
                 Some(false) => &base_regime,
                 Some(true) => &edge_regime,
@@ -1407,6 +1457,11 @@ mod native {
             xs.push(mu + k * sigma);
             xs.push(mu - k * sigma);
         }
+        // whole numbers next to the location and around 0 (exact coincidences with the lattice)
+        for k in [-1.0, 0.0, 1.0] {
+            xs.push(mu.round() + k);
+            xs.push(k);
+        }
         xs.sort_by(|p, q| p.partial_cmp(q).unwrap());
         xs.dedup();
         // running quadrature of the library's pdf from mu − 40 sigma upwards
@@ -1556,6 +1611,7 @@ mod native {
             rep.case(&regime);
             rep.check("C02.mvn.moments", &regime, ok, || json!({"setting": setting, "mean()": jf(m), "var()": jf(&v.data.v)}));
         }
+        let rf = MvnRef { d, mean: &mean, l: &l, kappa, logdet, setting: &setting };
         for t in [0.0, 0.3, 1.0, 1.0, 2.0, 3.0, 6.0, 12.0, 45.0] {
             // x = mean + t · L z
             let z = rng.normals(d);
@@ -1565,63 +1621,257 @@ mod native {
                     x[i] += t * l[i * d + j] * z[j];
                 }
             }
-            // reference: forward substitution L y = x − mean in double-double, q = |y|²
-            let mut y = vec![Dd::ZERO; d];
-            for i in 0..d {
-                let mut s = Dd::sum2(x[i], -mean[i]);
-                for j in 0..i {
-                    s = s - y[j] * l[i * d + j];
+            mvn_check_point(rep, &regime, &mvn, &rf, &x);
+        }
+    }
+
+    /// The harness's own description of one MVN setting: Cholesky factor of the requested covariance
+    /// (double-double accumulation), its condition number and log-determinant.
+    struct MvnRef<'a> {
+        d: usize,
+        mean: &'a [f64],
+        l: &'a [f64],
+        kappa: f64,
+        logdet: f64,
+        setting: &'a serde_json::Value,
+    }
+
+    /// pdf (formula, sign, no panic) and ln_pdf at one point against the reference density.
+    fn mvn_check_point(rep: &mut Report, regime: &str, mvn: &MVN, rf: &MvnRef, x: &[f64]) {
+        let (d, mean, l, kappa, logdet, setting) = (rf.d, rf.mean, rf.l, rf.kappa, rf.logdet, rf.setting);
+        // reference: forward substitution L y = x − mean in double-double, q = |y|²
+        let mut y = vec![Dd::ZERO; d];
+        for i in 0..d {
+            let mut s = Dd::sum2(x[i], -mean[i]);
+            for j in 0..i {
+                s = s - y[j] * l[i * d + j];
+            }
+            y[i] = s / l[i * d + i];
+        }
+        let mut q = Dd::ZERO;
+        for yi in &y {
+            q = q + *yi * *yi;
+        }
+        let q = q.f();
+        let ln_ref = -0.5 * (q + logdet + d as f64 * LN_2PI);
+        let want = ln_ref.exp();
+        // a-priori: the cached inverse and determinant carry errors of order d·eps·kappa
+        let ln_bound = 1e-11 + 64.0 * d as f64 * f64::EPSILON * kappa * (1.0 + q);
+        let tol = ln_bound.exp_m1();
+        rep.case(regime);
+        let mr = mvn;
+        let got = match guard(|| mr.pdf(x)) {
+            Ok(v) => v,
+            Err(msg) => {
+                rep.check("C02.pdf.no_panic", regime, false, || json!({"setting": setting, "x": jf(x), "panic": msg}));
+                return;
+            }
+        };
+        rep.check("C02.pdf.nonneg", regime, !(got < 0.0), || json!({"setting": setting, "x": jf(x), "observed": jnum(got)}));
+        let (ok, ratio) = close_rel(got, want, tol);
+        if ok {
+            rep.note_max("worst_ratio.pdf.formula:mvn", ratio);
+        }
+        rep.check("C02.pdf.formula", regime, ok, || json!({"setting": setting, "x": jf(x), "observed": jnum(got), "expected": want, "rel_tol": tol, "cond_inf": kappa, "mahalanobis_sq": q}));
+        if got.is_finite() && got >= 1e-300 {
+            match guard(|| mr.ln_pdf(x)) {
+                Ok(lp) => {
+                    let lw = got.ln();
+                    let err = (lp - lw).abs();
+                    let bound = FORMULA_TOL * lw.abs().max(1.0);
+                    if err <= bound {
+                        rep.note_max("worst_ratio.ln_pdf", err / bound);
+                    }
+                    rep.check("C02.ln_pdf", regime, err <= bound, || json!({"setting": setting, "x": jf(x), "ln_pdf": jnum(lp), "ln(pdf)": lw}));
                 }
-                y[i] = s / l[i * d + i];
-            }
-            let mut q = Dd::ZERO;
-            for yi in &y {
-                q = q + *yi * *yi;
-            }
-            let q = q.f();
-            let ln_ref = -0.5 * (q + logdet + d as f64 * LN_2PI);
-            let want = ln_ref.exp();
-            // a-priori: the cached inverse and determinant carry errors of order d·eps·kappa
-            let ln_bound = 1e-11 + 64.0 * d as f64 * f64::EPSILON * kappa * (1.0 + q);
-            let tol = ln_bound.exp_m1();
-            rep.case(&regime);
-            let mr = &mvn;
-            let got = match guard(|| mr.pdf(&x[..])) {
-                Ok(v) => v,
                 Err(msg) => {
-                    rep.check("C02.pdf.no_panic", &regime, false, || json!({"setting": setting, "x": jf(&x), "panic": msg}));
-                    continue;
+                    rep.check("C02.ln_pdf", regime, false, || json!({"setting": setting, "x": jf(x), "panic": msg}));
                 }
-            };
-            rep.check("C02.pdf.nonneg", &regime, !(got < 0.0), || json!({"setting": setting, "x": jf(&x), "observed": jnum(got)}));
-            let (ok, ratio) = close_rel(got, want, tol);
-            if ok {
-                rep.note_max("worst_ratio.pdf.formula:mvn", ratio);
             }
-            rep.check("C02.pdf.formula", &regime, ok, || json!({"setting": setting, "x": jf(&x), "observed": jnum(got), "expected": want, "rel_tol": tol, "cond_inf": kappa, "mahalanobis_sq": q}));
-            if got.is_finite() && got >= 1e-300 {
-                match guard(|| mr.ln_pdf(&x[..])) {
-                    Ok(lp) => {
-                        let lw = got.ln();
-                        let err = (lp - lw).abs();
-                        let bound = FORMULA_TOL * lw.abs().max(1.0);
-                        if err <= bound {
-                            rep.note_max("worst_ratio.ln_pdf", err / bound);
+        }
+    }
+
+    /// Evaluation points with exact coincidences against the parameters: correlated covariances
+    /// (random SPD, equicorrelated with either sign, AR(1)-type Toeplitz, each with its own
+    /// per-coordinate scales), means that are zero / integer / on the coordinate lattice / generic, and
+    ///   * `mvn:tie:all`      x = mean exactly;
+    ///   * `mvn:tie:partial`  x[j] = mean[j] bit for bit on a non-empty proper subset of the
+    ///                        coordinates (only the first, only the last, all but the first, all but
+    ///                        one, random subsets), the others deviating by a generic amount or by a
+    ///                        whole number of lattice steps;
+    ///   * `mvn:lattice`      every coordinate a whole multiple of a power-of-two step near its
+    ///                        standard deviation (integers when the scale is 1..2), points on the
+    ///                        coordinate axes through the mean, signed zeros.
+    /// All are judged against the same double-double reference as generic points.
+    fn run_mvn_ties(rng: &mut Rng, d: usize, rep: &mut Report) {
+        let sds: Vec<f64> = (0..d).map(|_| rng.log_range(0.1, 30.0)).collect();
+        let ckind = rng.usize(0, 2);
+        let mut cov = vec![0.0; d * d];
+        match ckind {
+            0 => {
+                let g: Vec<f64> = rng.normals(d * d);
+                let scale = rng.log_range(1e-2, 1e2);
+                let delta = scale * rng.log_range(1e-2, 1.0);
+                for i in 0..d {
+                    for j in 0..=i {
+                        let mut s = 0.0;
+                        for k in 0..d {
+                            s += g[k * d + i] * g[k * d + j];
                         }
-                        rep.check("C02.ln_pdf", &regime, err <= bound, || json!({"setting": setting, "x": jf(&x), "ln_pdf": jnum(lp), "ln(pdf)": lw}));
-                    }
-                    Err(msg) => {
-                        rep.check("C02.ln_pdf", &regime, false, || json!({"setting": setting, "x": jf(&x), "panic": msg}));
+                        let v = s * scale + if i == j { delta } else { 0.0 };
+                        cov[i * d + j] = v;
+                        cov[j * d + i] = v;
                     }
                 }
             }
+            1 => {
+                // equicorrelated: rho in (−1/(d−1), 1)
+                let rho = if rng.bool() || d == 1 { rng.range(0.2, 0.95) } else { -rng.range(0.1, 0.9) / (d as f64 - 1.0) };
+                for i in 0..d {
+                    for j in 0..=i {
+                        let v = sds[i] * sds[j] * if i == j { 1.0 } else { rho };
+                        cov[i * d + j] = v;
+                        cov[j * d + i] = v;
+                    }
+                }
+            }
+            _ => {
+                let rho = rng.range(0.3, 0.95) * if rng.bool() { 1.0 } else { -1.0 };
+                for i in 0..d {
+                    for j in 0..=i {
+                        let v = sds[i] * sds[j] * rho.powi((i - j) as i32);
+                        cov[i * d + j] = v;
+                        cov[j * d + i] = v;
+                    }
+                }
+            }
+        }
+        let sd: Vec<f64> = (0..d).map(|i| cov[i * d + i].sqrt()).collect();
+        // power-of-two lattice step next to each coordinate's standard deviation
+        let step: Vec<f64> = sd.iter().map(|s| 2f64.powi(s.log2().floor() as i32)).collect();
+        let mkind = rng.usize(0, 3);
+        let mean: Vec<f64> = (0..d)
+            .map(|j| match mkind {
+                0 => 0.0,
+                1 => rng.int(-1000, 1000) as f64,
+                2 => rng.int(-40, 40) as f64 * step[j],
+                _ => {
+                    if rng.chance(0.3) {
+                        rng.range(-1e3, 1e3)
+                    } else {
+                        rng.range(-10.0, 10.0)
+                    }
+                }
+            })
+            .collect();
+        let setting = json!({"dim": d, "mean": jf(&mean), "cov": jf(&cov)});
+        let l = match linref::cholesky(&cov, d) {
+            Some(l) => l,
+            None => {
+                rep.inconclusive("generated covariance not SPD for the reference Cholesky".into());
+                return;
+            }
+        };
+        let kappa = linref::cond_inf(&cov, d);
+        let logdet: f64 = 2.0 * (0..d).map(|i| l[i * d + i].ln()).sum::<f64>();
+        rep.distinct(Hasher::new().s("mvn-ties").fs(&cov).fs(&mean).finish(), true);
+        let mvn = match guard(|| MVN::new(mean.clone(), Matrix::new(cov.clone(), d as i32, d as i32))) {
+            Ok(m) => m,
+            Err(msg) => {
+                rep.case("mvn:tie:all");
+                rep.check("C02.construct.no_panic", "mvn:tie:all", false, || json!({"setting": setting, "panic": msg}));
+                return;
+            }
+        };
+        let offdiag = (0..d).any(|i| (0..i).any(|j| cov[i * d + j] != 0.0));
+        rep.seen(["mvn:ties:cov=random-spd", "mvn:ties:cov=equicorrelated", "mvn:ties:cov=ar1-toeplitz"][ckind], 1);
+        rep.seen(["mvn:ties:mean=zero", "mvn:ties:mean=integer", "mvn:ties:mean=on-lattice", "mvn:ties:mean=generic"][mkind], 1);
+        rep.sample(|| json!({"setting": setting, "regime": "mvn:tie:*", "cond_inf": kappa}));
+        let rf = MvnRef { d, mean: &mean, l: &l, kappa, logdet, setting: &setting };
+        // (a) x = mean
+        mvn_check_point(rep, "mvn:tie:all", &mvn, &rf, &mean);
+        // a deviation of coordinate j that is guaranteed to change the value
+        let deviate = |rng: &mut Rng, j: usize, lattice: bool| -> f64 {
+            loop {
+                let dx = if lattice {
+                    rng.int(-3, 3) as f64 * step[j]
+                } else {
+                    *rng.choose(&[0.3, 1.0, 1.0, 2.5]) * sd[j] * rng.normal()
+                };
+                let v = mean[j] + dx;
+                if v != mean[j] {
+                    return v;
+                }
+            }
+        };
+        // (b) partial ties
+        if d >= 2 {
+            let mut subsets: Vec<Vec<bool>> = Vec::new();
+            subsets.push((0..d).map(|j| j >= 1).collect()); // only the first coordinate deviates
+            subsets.push((0..d).map(|j| j == 0).collect()); // only the first coordinate ties
+            subsets.push((0..d).map(|j| j == d - 1).collect()); // only the last ties
+            subsets.push((0..d).map(|j| j != d - 1).collect()); // only the last deviates
+            let one = rng.usize(0, d - 1);
+            subsets.push((0..d).map(|j| j != one).collect()); // a single deviating coordinate
+            subsets.push((0..d).map(|j| j == one).collect()); // a single tied coordinate
+            for _ in 0..4 {
+                loop {
+                    let t: Vec<bool> = (0..d).map(|_| rng.bool()).collect();
+                    let k = t.iter().filter(|b| **b).count();
+                    if k >= 1 && k < d {
+                        subsets.push(t);
+                        break;
+                    }
+                }
+            }
+            for (si, tied) in subsets.iter().enumerate() {
+                let lattice = si % 3 == 2;
+                let x: Vec<f64> = (0..d).map(|j| if tied[j] { mean[j] } else { deviate(rng, j, lattice) }).collect();
+                // which side of a deviating coordinate the ties sit on (both orders are required)
+                let first_free = tied.iter().position(|t| !*t).unwrap();
+                let last_free = tied.iter().rposition(|t| !*t).unwrap();
+                if offdiag {
+                    if tied.iter().skip(first_free).any(|t| *t) {
+                        rep.seen("mvn:tie:partial:tied-after-deviating(correlated)", 1);
+                    }
+                    if tied.iter().take(last_free).any(|t| *t) {
+                        rep.seen("mvn:tie:partial:tied-before-deviating(correlated)", 1);
+                    }
+                }
+                mvn_check_point(rep, "mvn:tie:partial", &mvn, &rf, &x);
+            }
+        }
+        // (c) lattice points: whole multiples of the step, around the mean
+        for li in 0..6 {
+            let mut x: Vec<f64> = (0..d).map(|j| ((mean[j] / step[j]).round() + rng.int(-2, 2) as f64) * step[j]).collect();
+            if li == 4 || li == 5 {
+                // on a coordinate axis through the (rounded) mean
+                let ax = rng.usize(0, d - 1);
+                for j in 0..d {
+                    if j != ax {
+                        x[j] = (mean[j] / step[j]).round() * step[j];
+                    }
+                }
+                if li == 5 {
+                    for v in x.iter_mut() {
+                        if *v == 0.0 {
+                            *v = -0.0;
+                        }
+                    }
+                }
+            }
+            let nt = (0..d).filter(|&j| x[j] == mean[j]).count();
+            if nt >= 1 && nt < d {
+                rep.seen("mvn:lattice:partial-tie", 1);
+            }
+            mvn_check_point(rep, "mvn:lattice", &mvn, &rf, &x);
         }
     }
 
     // -----------------------------------------------------------------------------------------
 
     pub fn run(cfg: &Cfg, rep: &mut Report) {
-        rep.rule = "settings = fixed grid over every law x parameter regime of the quantifier (+ random settings inside the same regimes in the thorough tier); per setting: 41-point quantile ladder, centre, ±50/1e3/1e6 scale units, support ends ±1 ulp, points strictly outside; discrete laws: every count of the support (Poisson: 0..lambda+40 sqrt(lambda)+60) plus negative and too-large counts; edge settings: Gamma shape 20..171.5 x rates 1e-3..1e3 and rates with α·ln β = ±690..709.5, Beta with α+β = 143..171.6 in both orders, χ² dof 120..198, plus points x with (shape−1)·ln x = 680..709.6 for every Gamma/χ² setting; MVN: random SPD covariance, dimension 1..6, points at 0..45 Mahalanobis radii. evaluations = point evaluations + one per moment check; distinct = distinct (law, parameters); all are non-trivial".into();
+        rep.rule = "settings = fixed grid over every law x parameter regime of the quantifier (+ random settings inside the same regimes in the thorough tier); per setting: 41-point quantile ladder, centre, ±50/1e3/1e6 scale units, support ends ±1 ulp, points strictly outside; discrete laws: every count of the support (Poisson: 0..lambda+40 sqrt(lambda)+60) plus negative and too-large counts; edge settings: Gamma shape 20..171.5 x rates 1e-3..1e3 and rates with α·ln β = ±690..709.5, Beta with α+β = 143..171.6 in both orders, χ² dof 120..198, plus points x with (shape−1)·ln x = 680..709.6 for every Gamma/χ² setting; MVN: random SPD covariance, dimension 1..6, points at 0..45 Mahalanobis radii. Exact coincidences: every continuous setting also at its parameters and their simple combinations, textbook/reported mean, mean ± sd, mode, median, whole numbers and centre + k·scale/2 (regime <base>:coincide); MVN with random-SPD / equicorrelated / AR(1)-Toeplitz covariances and zero / integer / on-lattice / generic means at x = mean, at points that equal the mean bit for bit on a non-empty proper subset of the coordinates (10 subsets per setting incl. first-only, last-only, all-but-first) and at power-of-two lattice points, axis points and signed zeros (regimes mvn:tie:all, mvn:tie:partial, mvn:lattice). evaluations = point evaluations + one per moment check; distinct = distinct (law, parameters); all are non-trivial".into();
         rep.assume("pointwise formula checks are restricted to points where every partial product of the textbook factors is a representable f64 (DESIGN: 'combinations whose textbook factors are individually representable'); skipped points are counted in notes.skipped.*");
         rep.assume("edge of the f64 range (regimes <law>:factor-edge, laws Gamma, Beta, ChiSquared): a point that fails the order-free rule only because a factor or partial product lies in the last e^10 of the range is still judged when every intermediate result of the textbook formula evaluated as printed (Gamma: β^α/Γ(α)·x^(α−1)·e^(−βx); Beta: x^(α−1)(1−x)^(β−1)/B, B = Γ(α)Γ(β)/Γ(α+β); χ²: 1/(2^(k/2)Γ(k/2))·x^(k/2−1)·e^(−x/2)) has its logarithm in [-708, 709.7] (underflow allowed when the density itself is below e^-700); beyond that range no textbook factor is an f64 and nothing is judged");
         rep.assume("mass/mean/var are integrated only when the pointwise formula check passed for the setting (a wrong pdf is already reported), when the moment is finite with tail exponent margin >= 1/2 (T dof >= 1.5/2.5, Pareto alpha >= 1.5/2.5) and the density is not singular at a non-zero support end (Beta with b < 1)");
@@ -1644,6 +1894,9 @@ mod native {
         par_cases(cfg, rep, 3, normals.len(), |i, _rng, rep| run_normal_cdf(normals[i].0, normals[i].1, rep));
         let nm = cfg.pick(600, 6000, 2);
         par_cases(cfg, rep, 4, nm, |i, rng, rep| run_mvn(rng, 1 + i % 6, rep));
+        // evaluation points with exact coincidences against the parameters (MVN: partial ties)
+        let nt = cfg.pick(480, 4800, 2);
+        par_cases(cfg, rep, 9, nt, |i, rng, rep| run_mvn_ties(rng, 1 + (i + 1) % 6, rep));
         // factors next to the end of the f64 range
         let mut egrid = edge_grid();
         if lite {
@@ -1675,6 +1928,15 @@ mod native {
                 "mvn:d=1", "mvn:d=2", "mvn:d=3", "mvn:d=4", "mvn:d=5", "mvn:d=6", "gamma:factor-edge", "beta:factor-edge", "chi2:factor-edge",
             ] {
                 rep.require(r, 1);
+            }
+            for r in ["mvn:tie:all", "mvn:tie:partial", "mvn:lattice", "mvn:tie:partial:tied-after-deviating(correlated)", "mvn:tie:partial:tied-before-deviating(correlated)", "mvn:lattice:partial-tie"] {
+                rep.require(r, 50);
+            }
+            for r in ["mvn:ties:cov=random-spd", "mvn:ties:cov=equicorrelated", "mvn:ties:cov=ar1-toeplitz", "mvn:ties:mean=zero", "mvn:ties:mean=integer", "mvn:ties:mean=on-lattice", "mvn:ties:mean=generic"] {
+                rep.require(r, 10);
+            }
+            for law in ["normal", "gamma", "beta", "chi2", "t", "pareto", "gumbel", "exponential", "uniform"] {
+                rep.require(&format!("coincide:{}", law), 10);
             }
         }
     }
